@@ -74,6 +74,22 @@ D = {
  "C10-m4": ("C10", "pilota/src/prost/encoding.rs fixed_width! merge_repeated", "packed elements read with get_*_le without a per-element bounds check", "a packed run whose length is not a multiple of the element width, ending within width-1 bytes of the input end"),
  "C11-m3": ("C11", "pilota/src/thrift/binary_unsafe.rs skip_till_depth map slow path", "keys of fixed size skipped through a 'lead' added on every stack re-selection", "unknown map with a fixed-size key and struct values that contain a variable-size field"),
  "C11-m4": ("C11", "pilota/src/thrift/binary_unsafe.rs read_message_begin", "names > 24 bytes take a zero-copy path that does not re-derive buf from trans", "a message envelope with a method name longer than 24 bytes read by the unchecked reader"),
+ "C13-m3": ("C13", "pilota/src/thrift/binary_unsafe.rs LinkedBytes writer", "flush moved from write_bytes_without_len's zero-copy branch into write_bytes", "re-encoding through the unchecked LinkedBytes writer with zero_copy, a retained unknown chunk >= 4096 bytes, something pending before it"),
+ "C13-m4": ("C13", "pilota/src/thrift/binary_unsafe.rs get_bytes", "'small capture' path copies <= 11 bytes from the caller's (lagging) pointer", "unchecked reader with retention, an unknown field of at most 11 bytes that follows a known scalar / string / container field"),
+ "C14-m3": ("C14", "pilota-build/src/middle/context.rs rust_name", "change_case(false) fast path skips the pilota.name lookup", "change_case off, protobuf input, a message with a nested message / enum / oneof (module and struct get the same name)"),
+ "C14-m4": ("C14", "pilota-build/src/resolve.rs lower_path", "commits to the first import whose leading segments match", "two imported .proto files with the same package, or one imported package a prefix of another (geo, geo.shapes)"),
+ "C15-m3": ("C15", "pilota-thrift-parser/src/parser/constant.rs IntConstant", "sign applied in the decimal branch only", "a negative hexadecimal integer literal (-0x10)"),
+ "C15-m4": ("C15", "pilota-thrift-parser/src/parser/mod.rs comment", "line comments read with take_until(newline)", "a // or # comment at the very end of the document without a trailing newline"),
+ "C16-m3": ("C16", "pilota-thrift-parser/src/parser/thrift.rs Item::parse", "keyword looked up in a fixed 12-byte window of the input", "a top-level definition with a multi-byte character covering byte offset 12"),
+ "C16-m4": ("C16", "pilota-thrift-parser/src/parser/ty.rs Type::parse", "alt((annotated, bare)): every un-annotated type parsed twice per nesting level", "container types nested ~16+ levels without annotations: exponential time, never returns at depth 40..64"),
+ "C17-m3": ("C17", "pilota-build/src/plugin/mod.rs AutoDerivePlugin", "only the first element of a std HashSet of delayed items is probed", "two type cycles where one becomes non-derivable late; derive lists flip with the per-process hash seed"),
+ "C17-m4": ("C17", "pilota-build/src/codegen/mod.rs write_items", "module items rendered with a parallel fold; the dedup map is per fold segment", "Builder::dedup with two files sharing a namespace and duplicate structs, non-split mode, differing pool sizes"),
+ "C18-m3": ("C18", "pilota/src/prost/encoding.rs fixed_width! merge_repeated", "packed run written over the front of a non-empty repeated field (take(count) for skip(filled))", "a repeated fixed-width field that already holds elements when a packed run arrives"),
+ "C18-m4": ("C18", "pilota/src/prost/encoding.rs skip_field", "skip_varint gives up after nine bytes", "an undeclared varint field with a ten-byte encoding (negative int32/int64/enum, uint64 >= 2^63)"),
+ "C19-m3": ("C19", "pilota/src/thrift/rw_ext.rs split_to_checked", "a thread-local 'last short read' slot keeps a clone of the input Bytes", "sync decode failing because a string/binary length exceeds the remaining input; visible through Bytes::is_unique / live bytes after the caller drops the input, not through growth over repetitions"),
+ "C19-m4": ("C19", "pilota/src/prost/encoding.rs message::merge_repeated", "element built in spare capacity, set_len only after a successful merge", "repeated message field, a corruption inside an element after a heap-owning field of that element was merged (never a truncation)"),
+ "C20-m3": ("C20", "pilota-build/src/middle/context.rs lit_into_ty", "string default literals formatted with {:?}", "a string / binary default containing a backslash escape"),
+ "C20-m4": ("C20", "pilota-thrift-parser/src/parser/constant.rs IntConstant", "the sign of a negative hex literal is dropped", "a default or constant written as a negative hexadecimal integer"),
  "C12-m4": ("C12", "pilota/src/thrift/mod.rs async skip_till_depth list arm", "list levels skipped with depth instead of depth - 1", "async skip of an unknown value nested deeper than 64 through lists: sync refuses, async accepts"),
 }
 
